@@ -1,14 +1,14 @@
 """C02 - an edited tree is observationally identical to a fresh parse of its own source."""
 from pyvc import native
 from pyvc.contract import verify_all
-from contracts import k_cache
+from contracts import k_cache, k_links
 
 
 def run(rep, tier, seed):
-    verify_all(rep, k_cache.specs('C02'))
+    verify_all(rep, k_cache.specs('C02') + k_links.specs('C02'))
     rep.trusted.append('b2c / c2b of source lines are uninterpreted here (their contracts are proved under C06)')
-    rep.remainder = ('flush-on-write of every position-writing site, link maintenance of _set_ast/_set_field/'
-                     '_make_fst_tree, the children worklist of _touchall, computed locations: bounded stand-in only')
+    rep.remainder = ('flush-on-write of every position-writing site, the work lists of _make_fst_tree / _unmake_fst_tree / '
+                     '_touchall(children) as a whole (their per-node bodies are proved), computed locations: bounded stand-in only')
     sec = native.run('b_edit', 'main', {'props': ['C02'], 'tier': tier, 'seed': seed, 'donor_n': 3, 'stride': 3,
                                         'ops': ['self', 'remove', 'donor', 'slice', 'accessors', 'pars'], 'norm': True})
     sec['native_entry'] = ('b_edit', 'replay')
